@@ -181,3 +181,93 @@ Definition conn_result (nonces : list N) (all : list sconn) (i : nat) (c : sconn
   | Some n => init_connection n (sc_local c) (sc_tt c) (sremote_of nonces all i c) (sc_ev c)
   | None => (ROkFalse, [])
   end.
+
+(* ------------------------------------------------------------------ the table and the database *)
+(* PeerManager keeps the token table in memory and the invitations / allowed peers in the database;
+   PeerManager::new rebuilds the table from the database (restart).  An owned invitation may name a
+   default room; the grant (a sys.Room mutation) can fail when the invitation is used. *)
+Record sys := { sy_pm : pm;
+                sy_next : N;                                  (* rank of the next created invitation *)
+                sy_bad : list N;                              (* owned invitations whose default-room grant fails *)
+                sy_db_owned : list N;                         (* sys.OwnedInvite rows *)
+                sy_db_invites : list (N * N * option key);    (* sys.Invite rows *)
+                sy_db_allowed : list peer }.                  (* sys.AllowedPeer rows (the instance itself aside) *)
+Definition mem_N (x : N) (l : list N) : bool := existsb (N.eqb x) l.
+Definition with_tokens (m : pm) (l : list (token * ttype)) : pm :=
+  {| pm_app := pm_app m; pm_secret := pm_secret m; pm_tokens := l |}.
+(* PeerManager::new: allowed peers, then owned invitations, then received invitations *)
+Definition rebuild (me_key : key) (s : sys) : pm :=
+  with_tokens (sy_pm s)
+    ((TkOwn, TAllowed me_key)
+     :: map (fun p => (token_of (pm_secret (sy_pm s)) (p_pub p), TAllowed (p_key p))) (sy_db_allowed s)
+     ++ map (fun i => (TkInvite i, TOwned i)) (sy_db_owned s)
+     ++ map (fun x => let '(i, a, sg) := x in (TkInvite i, TInvite i a sg)) (sy_db_invites s)).
+Definition add_allowed (l : list peer) (p : peer) : list peer :=
+  if existsb (fun q => N.eqb (p_key q) (p_key p)) l then l else l ++ [p].
+
+Inductive dop :=
+| DCreate (grant : N)                 (* create_invite: 0 no default room, 1 a room that can be granted, 2 one that cannot *)
+| DAccept (b : invite_bytes)
+| DLookup (tk : token) (k : key)
+| DConsume (tk : token) (p : peer)    (* a connection on tk whose remote proved to be p *)
+| DRestart.
+
+(* invite_accepted on an owned invitation: the row is deleted, then the grant is attempted; when it
+   fails the function returns before the table is updated (the new peer is allowed all the same) *)
+Definition consume_owned (s : sys) (inv : N) (p : peer) : sys :=
+  let m := sy_pm s in
+  let m' := if mem_N inv (sy_bad s)
+            then push m (token_of (pm_secret m) (p_pub p)) (TAllowed (p_key p))
+            else match invite_accepted m (TOwned inv) p with Some x => x | None => m end in
+  {| sy_pm := m'; sy_next := sy_next s; sy_bad := sy_bad s;
+     sy_db_owned := filter (fun i => negb (N.eqb i inv)) (sy_db_owned s);
+     sy_db_invites := sy_db_invites s; sy_db_allowed := add_allowed (sy_db_allowed s) p |}.
+Definition consume_invite (s : sys) (t : ttype) (inv : N) (p : peer) : sys :=
+  let m := sy_pm s in
+  {| sy_pm := match invite_accepted m t p with Some x => x | None => m end;
+     sy_next := sy_next s; sy_bad := sy_bad s; sy_db_owned := sy_db_owned s;
+     sy_db_invites := filter (fun x => negb (N.eqb (fst (fst x)) inv)) (sy_db_invites s);
+     sy_db_allowed := add_allowed (sy_db_allowed s) p |}.
+
+(* one operation: new state and the two observed numbers *)
+Definition dstep (me_key : key) (s : sys) (o : dop) : sys * N * N :=
+  let m := sy_pm s in
+  match o with
+  | DCreate g =>
+      let inv := sy_next s in
+      ({| sy_pm := create_invite m inv; sy_next := N.succ inv;
+          sy_bad := if N.eqb g 2 then inv :: sy_bad s else sy_bad s;
+          sy_db_owned := sy_db_owned s ++ [inv]; sy_db_invites := sy_db_invites s; sy_db_allowed := sy_db_allowed s |}, 1, inv)
+  | DAccept b =>
+      match accept_invite m b, b with
+      | Some m', InviteFor inv a sg =>
+          ({| sy_pm := m'; sy_next := sy_next s; sy_bad := sy_bad s; sy_db_owned := sy_db_owned s;
+              sy_db_invites := if existsb (fun x => N.eqb (fst (fst x)) inv) (sy_db_invites s) then sy_db_invites s
+                               else sy_db_invites s ++ [(inv, a, sg)];
+              sy_db_allowed := sy_db_allowed s |}, 1, 0)
+      | _, _ => (s, 0, 0)
+      end
+  | DLookup tk k =>
+      match get_token_type m tk k with
+      | None => (s, 0, 0)
+      | Some (TAllowed q) => (s, 1, q)
+      | Some (TOwned i) => (s, 2, i)
+      | Some (TInvite i _ _) => (s, 3, i)
+      end
+  | DConsume tk p =>
+      match get_token_type m tk (p_key p) with
+      | None => (s, 0, 0)
+      | Some (TAllowed _) => (s, 1, 0)
+      | Some (TOwned i) => (consume_owned s i p, 2, 1)
+      | Some (TInvite i a sg) =>
+          (* initialise_connection: the remote must be the signer of the invitation *)
+          if match sg with Some k => N.eqb k (p_key p) | None => false end
+          then (consume_invite s (TInvite i a sg) i p, 3, 1) else (s, 3, 0)
+      end
+  | DRestart =>
+      ({| sy_pm := rebuild me_key s; sy_next := sy_next s; sy_bad := sy_bad s; sy_db_owned := sy_db_owned s;
+          sy_db_invites := sy_db_invites s; sy_db_allowed := sy_db_allowed s |}, 1, 0)
+  end.
+Definition init_sys (app : N) (me : secret) (me_key : key) : sys :=
+  {| sy_pm := {| pm_app := app; pm_secret := me; pm_tokens := [(TkOwn, TAllowed me_key)] |};
+     sy_next := 1; sy_bad := []; sy_db_owned := []; sy_db_invites := []; sy_db_allowed := [] |}.
